@@ -9,11 +9,14 @@ use crate::tables;
 pub struct C04;
 
 /// quantity spellings (literal, unit)
-pub const QUANT: [(&str, &str); 40] = [
+pub const QUANT: [(&str, &str); 56] = [
     ("3", "N"), ("10", "kg"), ("2", "km^2"), ("5", "m/s^2"), ("1", "Wb"), ("2", "V"), ("3", "mA"), ("1", "btu"), ("2", "h"), ("4", "l"),
     ("7", "m"), ("0.5", "s"), ("6", "J"), ("12", "W"), ("9", "Pa"), ("2", "C"), ("3", "F"), ("5", "ohm"), ("2", "T"), ("4", "H"),
     ("8", "ft"), ("3", "lb"), ("2", "gal"), ("1.5", "acre"), ("60", "km/h"), ("2", "kWh"), ("3", "N*m"), ("7", "kg*m/s^2"), ("2", "mol"), ("5", "cd"),
     ("3", "K"), ("1", "au"), ("2", "c"), ("4", "kt"), ("9", "Hz"), ("2", "B"), ("6", "min"), ("3", "cm^3"), ("-2", "m^-1"), ("10", "g"),
+    // one unit under several prefixes and powers; prefixed bases; derived-per-base compounds
+    ("1", "km"), ("5", "cm"), ("2", "mm^2"), ("1", "dm^3"), ("3", "Gm"), ("500", "mg"), ("3", "ns"), ("7", "m^2"), ("3", "cm^2"), ("2", "N/kg"),
+    ("3", "kJ/kg"), ("2", "N/m"), ("5", "J/g"), ("4", "W/cm^2"), ("2", "N/cm"), ("6", "km/s^2"),
 ];
 
 fn quants() -> Vec<Expr> {
@@ -29,7 +32,7 @@ impl Prop for C04 {
         "C04"
     }
     fn rule(&self) -> String {
-        "39 quantity spellings (base, derived, prefixed, powered, compound, imperial); all ordered pairs x {*, /} with the right operand bare and parenthesised; all triples over a 15-spelling core x {*,/}^2 x both groupings; (q)^n for every spelling and n in -3..3; every documented unit name with prefix none/k/m as (2 u)^n. Compared in SI normal form (value and base dimensions) with the reference evaluation of the tree; the displayed unit is never compared. Non-trivial = at least one operator applied to a quantity with a non-empty unit; distinct = distinct query strings".into()
+        "55 quantity spellings (base, derived, prefixed, powered, compound, imperial, one unit under several prefixes and powers, derived-per-base compounds); one unit under two prefixes and two powers on either side of * and / (7 prefixes x powers 1..3, squared); all ordered pairs x {*, /} with the right operand bare and parenthesised; all triples over a 15-spelling core x {*,/}^2 x both groupings; (q)^n for every spelling and n in -3..3; every documented unit name with prefix none/k/m as (2 u)^n. Compared in SI normal form (value and base dimensions) with the reference evaluation of the tree; the displayed unit is never compared. Non-trivial = at least one operator applied to a quantity with a non-empty unit; distinct = distinct query strings".into()
     }
     fn assumptions(&self) -> Vec<String> {
         vec!["unit scales come from the independent table (tables.rs), documented meanings".into(), "offset scales (°C, °F) are C09's subject".into()]
@@ -63,6 +66,27 @@ impl Prop for C04 {
                 emit("power", &bin(paren(a.clone()), Op::Pow, num(&n.to_string())), sink);
                 // power equals repeated multiplication: also as a product of powers
                 emit("power", &bin(paren(bin(paren(a.clone()), Op::Pow, num(&n.to_string()))), Op::Mul, a.clone()), sink);
+            }
+        }
+        // one unit under two prefixes and two powers on either side of * and / (in particular
+        // pairs with equal prefix x power: km^2 vs Mm, cm^3 vs mm^2, dm^3 vs mm)
+        let pfx = ["", "k", "G", "c", "m", "d", "n"];
+        for u in ["m", "s", "g"].iter().take(tier.pick(2, 3)) {
+            for p1 in pfx {
+                for n1 in 1..=3i64 {
+                    for p2 in pfx {
+                        for n2 in 1..=3i64 {
+                            let (w1, w2) = (format!("{p1}{u}"), format!("{p2}{u}"));
+                            if [&w1, &w2].iter().any(|w| w.len() > 1 && (crate::units::readings(w).len() != 1 || tables::find_by_name(w).is_some())) {
+                                continue;
+                            }
+                            let a = qty("3", &if n1 == 1 { w1.clone() } else { format!("{w1}^{n1}") });
+                            let b = qty("2", &if n2 == 1 { w2.clone() } else { format!("{w2}^{n2}") });
+                            emit("same-unit-prefix-power", &bin(a.clone(), Op::Mul, b.clone()), sink);
+                            emit("same-unit-prefix-power", &bin(a, Op::Div, b), sink);
+                        }
+                    }
+                }
             }
         }
         for u in tables::UNITS {
@@ -111,6 +135,6 @@ impl Prop for C04 {
         exprcheck::verdict(env.db(), &e, true)
     }
     fn bounds(&self, tier: Tier) -> serde_json::Value {
-        serde_json::json!({"quantities": 39, "triple_core": tier.pick(12, 15), "powers": "-3..3"})
+        serde_json::json!({"quantities": 55, "triple_core": tier.pick(12, 15), "powers": "-3..3"})
     }
 }
